@@ -2,6 +2,9 @@ SPECIFICATION Spec
 CONSTANTS Keys = {1, 2}
           MaxStreams = 4
           MaxLen = 2
-INVARIANTS EmitsEverything SuppressesEarlier FirstStreamWins
+          Passes = 1
+          Kinds = {"prio", "concat"}
+          SmallStreams = 3
+INVARIANTS EmitsEverything SuppressesEarlier FirstStreamWins ConcatForwardsAll EveryPassSame EveryPassComplete
 PROPERTIES Terminates
 CHECK_DEADLOCK FALSE
